@@ -93,7 +93,7 @@ class C01:
                   "thread; the model's must-set = STOREs answered 200 in a completed, quiesced step.")
     clauses = {"lost", "foreign-row", "duplicate-row", "wrong-value", "id-change", "count-vs-selection",
                "replay-lost", "replay-duplicate", "replay-foreign", "frames", "read-error", "hole", "panic",
-               "flush-error", "rejected-valid", "accepted-invalid"}
+               "flush-error", "rejected-valid", "accepted-invalid", "restart-panic"}
     budgets = {"quick": {"histories": 10, "crash_limit": 60}, "thorough": {"histories": 200, "crash_limit": 100000}}
 
     @staticmethod
@@ -385,7 +385,7 @@ class C05(Base):
                   "with a crash at enumerated I/O events (output files, index tmp/fsync/rename, reclaim) and with errno faults on "
                   "compaction output writes; after restart the previous answers must still hold.")
     clauses = {"lost", "duplicate-row", "foreign-row", "wrong-value", "count-vs-selection", "replay-lost", "replay-duplicate",
-               "replay-foreign", "layout-variance", "frames", "read-error", "panic", "id-change"}
+               "replay-foreign", "layout-variance", "frames", "read-error", "panic", "id-change", "restart-panic"}
     budgets = {"quick": {"histories": 12, "crash_limit": 40}, "thorough": {"histories": 150, "crash_limit": 100000}}
 
     @staticmethod
@@ -620,7 +620,7 @@ class C11(Base):
                   "restart, at enumerated crash points - that every named segment has exactly the files and bytes written before "
                   "it was published.")
     clauses = {"mutated-published", "removed-while-named", "index-in-place", "index-undecodable", "index-names-missing-dir",
-               "dir-reuse", "read-unpublished", "named-but-absent", "incomplete-segment", "panic"}
+               "dir-reuse", "read-unpublished", "named-but-absent", "incomplete-segment", "panic", "restart-panic"}
     budgets = {"quick": {"histories": 8, "crash_limit": 50}, "thorough": {"histories": 120, "crash_limit": 100000}}
     opts = {"segments": True, "rebase_after_restart": True}
 
